@@ -119,6 +119,19 @@ def case_exp_log(H, g):
             pairs += [('translation[%d]' % i, ty[i], t[i]) for i in range(3)]
         if s is not None:
             pairs += [('scale', sy, s)]
+        staged = (not small) and quat_log_families(ctx)
+        if staged:
+            # generic branch of the quaternion logarithm: staged proof per hemisphere.  Lemmas (each proved, in order):
+            # |phi| = 2|atan(|v|/w)|, sin(|phi|/2) = |v|, cos(|phi|/2) = |w| (and the full-angle pair); then the goals.
+            for sign, tag in ((1, 'w>0'), (-1, 'w<0')):
+                case, lem = quat_log_lemmas(ctx, sign)
+                hy, lobs = H.chain('%s/path%d/%s' % (name, pn, tag), hyp + case, lem, replay=replay, key=key, timeout=2 * to)
+                for nm, l, r in pairs:
+                    d = l - r
+                    H.prove('%s/path%d/%s/%s' % (name, pn, tag, nm), hy, l == r, replay=replay, key=key, timeout=2 * to, depends=lobs,
+                            strategies=('default', 'nlsat'), neg_margin=z3.Or(d > z3.RealVal('1/1000'), d < -z3.RealVal('1/1000')))
+                H.reach('%s/path%d/%s/reach' % (name, pn, tag), hyp + case)
+            continue
         for nm, l, r in pairs:
             d = l - r
             if small:
